@@ -693,20 +693,17 @@ def py_oracle(case, out):
     return _combos_match(case, out, chord_any=False)
 
 
-def _uses_chord_filter(case):
-    req = case.get("req") or {}
-    return (req.get("t") == "combos" and req.get("chord") is not None) or req.get("t") == "cs"
-
-
 def classify(case, out, kind):
-    """stable key of the one known defect class: the ONLY deviation is that chunks were passed by numpy's
-    element-wise `data in ar` instead of row membership"""
+    """No known findings (chord-filter-elementwise-any was fixed in 1bc6769).  A violation that matches the old
+    element-wise chord test gets a descriptive key (a regression of that fix); it is NOT listed as known, so it raises."""
     if kind != "spec" or case["kind"] != "pipe" or out.get("groups") is None or not _req(case, out):
         return None
     try:
-        if (_uses_chord_filter(case) and _py_group_ok(case, out) and _in_domain(case, out)
+        req = case.get("req") or {}
+        uses = (req.get("t") == "combos" and req.get("chord") is not None) or req.get("t") == "cs"
+        if (uses and _py_group_ok(case, out) and _in_domain(case, out)
                 and not _combos_match(case, out, chord_any=False) and _combos_match(case, out, chord_any=True)):
-            return "chord-filter-elementwise-any"
+            return "regression-chord-filter-elementwise-any"
     except Exception:
         return None
     return None
